@@ -10,6 +10,7 @@ import (
 	"github.com/Ptt-official-app/go-pttbbs/cmsys"
 	"github.com/Ptt-official-app/go-pttbbs/ptttype"
 	"github.com/Ptt-official-app/go-pttbbs/types"
+	"github.com/Ptt-official-app/go-pttbbs/verifhook"
 	log "github.com/sirupsen/logrus"
 )
 
@@ -25,6 +26,7 @@ func Login(userID *ptttype.UserID_t, passwd []byte, ip *ptttype.IPv4_t) (uid ptt
 	// we don't do loadCurrentUser
 	// because logattempt, ensure_user_agreement_version
 	// should be in middleware.
+	verifhook.Point("login.afterQuery")
 
 	err = userLogin(uid, user, ip)
 	if err != nil {
